@@ -246,7 +246,9 @@ func (st *StateTransition) TransitionDb() (*core.ExecutionResult, error) {
 
 	// Set up the initial access list.
 	if rules.IsBerlin {
-		activePrecompiles := append(corevm.ActivePrecompiles(rules), st.evm.GetCustomPrecompiledContractsAddress()...)
+		// copy first: ActivePrecompiles returns a package-level slice with spare capacity,
+		// appending onto it would write into memory shared by every (concurrent) execution of the process
+		activePrecompiles := append(append([]common.Address{}, corevm.ActivePrecompiles(rules)...), st.evm.GetCustomPrecompiledContractsAddress()...)
 		st.state.PrepareAccessList(msg.From(), msg.To(), activePrecompiles, msg.AccessList())
 	}
 	var (
